@@ -28,6 +28,8 @@ class C10(Prop):
         "partial_dependence = the definition (Fractions) and = compute_partial_dependence called directly at the real feature "
         "values, null for the pooled row only, and the pooled label is never shown to the predict function. Non-trivial = at "
         "least 2 groups and (string) pooling or (numeric) a non-integer bin mean."
+        "Later additions: the partial_dependence column is also compared with the model (marginalPD), exact-zero case weights, a large common offset of "
+        "observations and predictions (standard errors at the accuracy of a two-pass formula), unsigned numpy feature matrices. "
     )
     assumptions = ["polars std(ddof=0) = population standard deviation; predict functions are row-wise"]
 
